@@ -44,7 +44,7 @@ def construct(ctxname, e, idx):
     return dict(exprstmt="%s;" % e, commalhs="(%s, k);" % e, forinc="for (k = 0; k < 1; %s) k++;" % e,
                 condarm="c ? (%s) : a;" % e, condarmvoid="c ? (void)(%s) : (void)0;" % e,
                 logand="(%s) && k;" % e, logor="(%s) || k;" % e, voidcast="(void)(%s);" % e,
-                arg="use(%s);" % e, vararg="usev(1, %s);" % e, init="{ T v = %s; }" % e,
+                arg="use(%s);" % e, arg7="use7(1, 2, 3, 4, 5, 6, 7, %s);" % e, vararg="usev(1, %s);" % e, init="{ T v = %s; }" % e,
                 **{"return": "use(r_%d(it));" % idx},
                 ifcond="if (%s) k++;" % e, assignrhs="d = %s;" % e, stmtexprdiscard="({ %s; });" % e,
                 stmtexprvalue="d = ({ k++; %s; });" % e)[ctxname]
@@ -57,7 +57,7 @@ def render_unit(ty, cases):
            "struct Sm { long x; int y; }; struct Bg { long x[5]; };",
            "typedef %s T;" % t["T"], "struct W { int pad; T m; };", "int gia[4];",
            "static T mk(void) { T v = %s; return v; }" % t["init"],
-           "static T id2(T x, T y) { return y; }", "static void use(T x) {}", "static void usev(int n, ...) {}",
+           "static T id2(T x, T y) { return y; }", "static void use(T x) {}", "static void use7(int a1, int a2, int a3, int a4, int a5, int a6, int a7, T x) {}", "static void usev(int n, ...) {}",
            "static int ldcheck(long double u, long double v) { long double w = u * v + u; return w == 4.375L; }"]
     for cs in cases:
         e = expr(cs["form"], ty)
